@@ -327,12 +327,43 @@ impl Canon {
         loop {
             let inner = match &e.kind {
                 ast::ExprKind::Block(b, None)
-                    if matches!(b.rules, ast::BlockCheckMode::Default)
-                        && b.stmts.len() == 1
-                        && e.attrs.is_empty() =>
+                    if matches!(b.rules, ast::BlockCheckMode::Default) && e.attrs.is_empty() =>
                 {
-                    match &b.stmts[0].kind {
-                        ast::StmtKind::Expr(inner) if inner.attrs.is_empty() => inner.clone(),
+                    // redundant `;` statements do not count
+                    let real: Vec<&ast::Stmt> = b
+                        .stmts
+                        .iter()
+                        .filter(|s| !matches!(s.kind, ast::StmtKind::Empty))
+                        .collect();
+                    if real.len() != 1 {
+                        return;
+                    }
+                    match &real[0].kind {
+                        ast::StmtKind::Expr(inner) => inner.clone(),
+                        // `{ m!(..) }`: a macro call without semicolon is the block's value
+                        ast::StmtKind::MacCall(mc) if !matches!(mc.style, ast::MacStmtStyle::Semicolon) => {
+                            P(ast::Expr {
+                                id: ast::DUMMY_NODE_ID,
+                                kind: ast::ExprKind::MacCall(mc.mac.clone()),
+                                span: real[0].span,
+                                attrs: mc.attrs.clone(),
+                                tokens: None,
+                            })
+                        }
+                        // `{ return x; }` is `return x` (trailing_semicolon)
+                        ast::StmtKind::Semi(inner)
+                            if matches!(
+                                inner.kind,
+                                ast::ExprKind::Ret(..)
+                                    | ast::ExprKind::Break(..)
+                                    | ast::ExprKind::Continue(..)
+                                    | ast::ExprKind::Loop(..)
+                                    | ast::ExprKind::While(..)
+                                    | ast::ExprKind::ForLoop { .. }
+                            ) =>
+                        {
+                            inner.clone()
+                        }
                         _ => return,
                     }
                 }
